@@ -1,7 +1,9 @@
 ---------------------------- MODULE VpscResolve ----------------------------
 (* Re-solving: a Solver that has reached "done" gets new desired positions   *)
 (* (setDesiredPositions) and solve() runs again from the block structure the *)
-(* previous run left behind.  Every run must again end feasible with a       *)
+(* previous run left behind - or, after a setStartingPositions() call that   *)
+(* reset the structure and then raised, from singleton blocks with the       *)
+(* "unsatisfiable" flags of the earlier run.  Every run must again end feasible with a       *)
 (* certified optimum (C05 quantifies over every problem instance; a kept     *)
 (* block structure must not matter).  MaxSolves bounds the number of runs.   *)
 EXTENDS MCVpsc
@@ -13,7 +15,8 @@ rvars == <<vars, solves>>
 InitR == Init /\ solves = 1
 NextR == \/ (Next /\ UNCHANGED solves)
          \/ /\ solves < MaxSolves /\ solves' = solves + 1
-            /\ \E d \in [NV -> Des] : d # des /\ Retarget(d)
+            /\ \/ \E d \in [NV -> Des] : d # des /\ Retarget(d)
+               \/ Restart                 \* a failed setStartingPositions() between two solve() calls on the same problem
 StutterR == pc = "done" /\ solves = MaxSolves /\ UNCHANGED rvars
 SpecR == InitR /\ [][NextR \/ StutterR]_rvars
 \* the second and later runs start from a non-trivial structure
